@@ -2203,6 +2203,15 @@ impl CharacterDataMut for XmlText {
             Ok(())
         }
     }
+
+    fn replace_data(&self, offset: usize, count: usize, arg: &str) -> error::Result<()> {
+        if self.length() < offset {
+            Err(error::DomException::IndexSizeErr)?
+        } else {
+            self.data.borrow_mut().replace(offset, count, arg)?;
+            Ok(())
+        }
+    }
 }
 
 impl Node for XmlText {
@@ -2355,6 +2364,15 @@ impl CharacterDataMut for XmlComment {
             Err(error::DomException::IndexSizeErr)?
         } else {
             self.data.borrow_mut().delete(offset, count)?;
+            Ok(())
+        }
+    }
+
+    fn replace_data(&self, offset: usize, count: usize, arg: &str) -> error::Result<()> {
+        if self.length() < offset {
+            Err(error::DomException::IndexSizeErr)?
+        } else {
+            self.data.borrow_mut().replace(offset, count, arg)?;
             Ok(())
         }
     }
@@ -2539,6 +2557,15 @@ impl CharacterDataMut for XmlCDataSection {
             Err(error::DomException::IndexSizeErr)?
         } else {
             self.data.borrow_mut().delete(offset, count)?;
+            Ok(())
+        }
+    }
+
+    fn replace_data(&self, offset: usize, count: usize, arg: &str) -> error::Result<()> {
+        if self.length() < offset {
+            Err(error::DomException::IndexSizeErr)?
+        } else {
+            self.data.borrow_mut().replace(offset, count, arg)?;
             Ok(())
         }
     }
